@@ -88,3 +88,14 @@ func VerifReleaseSeq() {
 }
 
 func verifSpawnedConsumptions(s *Stream, recs []*verifConsumer) []int { return nil }
+
+// twin (C03): claims a stopped consumer is never closed - must be violated
+func VerifReleaseTwin() {
+	s := verifStream("/a")
+	rec := &verifConsumer{}
+	cid := s.StartConsumeNoGopCache(rec, RTPPacket, "x")
+	c := verifConsumption(s, cid)
+	s.StopConsume(cid)
+	c.consume() // the delivery goroutine observes the stop and runs its exit path
+	symapi.Assert(rec.closed == 0, "twin-stopped-consumer-not-closed")
+}
